@@ -1219,3 +1219,297 @@ Proof.
       + apply nth_error_None in Ej. lia. }
   split; [exact HP|]. apply exact_perm. exact HP.
 Qed.
+
+(* ---------- [wf] is an invariant of EVERY operation (repaired machine) -------------------- *)
+(* so that values_report_exact applies in every reachable state, whatever mix of
+   set-up, measures, direct updates, new result sets, averaging and read-outs led there *)
+
+Lemma ksorted_keys_ext l : forall l', map fst l = map fst l' -> ksorted l -> ksorted l'.
+Proof.
+  induction l as [|a l IH]; intros [|a' l'] E H; try discriminate; [constructor|].
+  simpl in E. injection E as Ea El. inversion H as [|? ? Hall Hs]; subst.
+  constructor; [|apply IH; assumption].
+  clear -Hall Ea El. revert l' El. induction Hall as [|b l Hb _ IHl]; intros [|b' l'] El; try discriminate; constructor.
+  - simpl in El. injection El as Eb _. unfold klt in *. rewrite <- Ea, <- Eb. exact Hb.
+  - simpl in El. injection El as _ El. apply IHl. exact El.
+Qed.
+
+Lemma stats_collect_sorted f21 f22 s : ksorted (vals s) -> ksorted (vals (stats_collect f21 f22 s)).
+Proof.
+  apply ksorted_keys_ext. unfold stats_collect. cbn [vals]. rewrite map_map. reflexivity.
+Qed.
+
+Lemma avg_keys_fst fixN2 srcs : forall keys os acc os' kvs,
+  avg_keys fixN2 os srcs keys acc = Some (os', kvs) -> map fst kvs = map fst acc ++ keys.
+Proof.
+  induction keys as [|k keys IH]; intros os acc os' kvs H; simpl in H.
+  - injection H as _ <-. rewrite app_nil_r. reflexivity.
+  - destruct (avg_key fixN2 os srcs k []) as [[os1 vs]|]; [|discriminate].
+    apply IH in H. rewrite H, map_app, <- app_assoc. reflexivity.
+Qed.
+
+Lemma bucket_set_nodup bl nb : NoDup (map b_obj bl) -> ~ In (b_obj nb) (map b_obj bl) ->
+  NoDup (map b_obj (bucket_set bl nb)).
+Proof.
+  induction bl as [|b bl IH]; simpl; intros Hnd Hnot.
+  - constructor; [intros []|constructor].
+  - inversion Hnd as [|? ? Hb Hrest]; subst. destruct (b_idx b =? b_idx nb)%Z; simpl.
+    + constructor; [tauto|exact Hrest].
+    + constructor; [|apply IH; tauto].
+      intros Hin. apply in_map_iff in Hin as (b' & Eb & Hb').
+      apply in_bucket_set in Hb' as [->|Hb']; [apply Hnot; left; symmetry; exact Eb|].
+      apply Hb. rewrite <- Eb. apply in_map. exact Hb'.
+Qed.
+
+Lemma wf_set m i s s' : wf m -> nth_error (objs m) i = Some s ->
+  locked s' = false -> ksorted (vals s') -> wf (with_objs m (set_nth (objs m) i s')).
+Proof.
+  intros [Hal Hne Hso Hlo Hbo Hbd] Hi Hl Hs. constructor; cbn [with_objs dead objs bks]; auto.
+  - intros E. apply (f_equal (@List.length stats)) in E. rewrite set_nth_length in E.
+    destruct (objs m); [congruence|discriminate].
+  - intros s0 H0. destruct (in_set_nth _ _ _ _ H0) as [->|H]; auto.
+  - intros s0 H0. destruct (in_set_nth _ _ _ _ H0) as [->|H]; auto.
+  - intros b Hb. rewrite set_nth_length. auto.
+Qed.
+
+Lemma wf_grow m s : wf m -> locked s = false -> ksorted (vals s) ->
+  wf (with_objs m (objs m ++ [s])).
+Proof.
+  intros [Hal Hne Hso Hlo Hbo Hbd] Hl Hs. constructor; cbn [with_objs dead objs bks]; auto.
+  - intros E. apply app_eq_nil in E as [E _]. congruence.
+  - intros s0 H0. apply in_app_or in H0 as [H|[<-|[]]]; auto.
+  - intros s0 H0. apply in_app_or in H0 as [H|[<-|[]]]; auto.
+  - intros b Hb. destruct (Hbo b Hb) as (i & A & B). exists i. split; [exact A|]. rewrite app_length. lia.
+Qed.
+
+Lemma wf_safe m : wf m -> safe m.
+Proof.
+  intros [Hal Hne Hso Hlo Hbo Hbd]. constructor; auto.
+  intros b Hb. destruct (Hbo b Hb) as (i & A & B). exists i. split; [exact A|lia].
+Qed.
+
+Lemma wf_on_obj m i f : wf m ->
+  (forall s, nth_error (objs m) i = Some s -> wf (fst (f s))) -> wf (fst (on_obj m i f)).
+Proof.
+  intros W Hf. unfold on_obj. destruct (nth_error (objs m) i) as [s|] eqn:E; [|exact W].
+  rewrite (wf_unlocked m W s (nth_error_In _ _ E)). apply Hf. reflexivity.
+Qed.
+
+Lemma wf_measure (fx : fixes) m k x h : wf m -> wf (fst (do_measure m k x h)).
+Proof.
+  intros W. destruct (measure_step fx m k x h W) as (m' & E & W' & _).
+  unfold mstep in E. rewrite (wf_alive m W) in E. rewrite E. exact W'.
+Qed.
+
+Theorem wf_step : forall o m, wf m -> wf (fst (mstep all_fixed m o)).
+Proof.
+  intros o m W. pose proof W as [Hal Hne Hso Hlo Hbo Hbd]. unfold mstep. rewrite Hal.
+  cbn [all_fixed fx21 fx22 fxN1 fxN2 fxN3].
+  destruct o as [|idx rules|k x h|k x h|i k x|i|i|i|i|idx|srcs|k x h].
+  - (* ONew *) cbn [fst]. apply wf_grow; [exact W|reflexivity|constructor].
+  - (* OSetBucket *)
+    destruct (parse_rules rules) as [rs ok]. cbn [fst].
+    destruct ok; cbn [negb andb].
+    + constructor; cbn [dead objs bks].
+      * reflexivity.
+      * intros E. apply app_eq_nil in E as [E _]. congruence.
+      * intros s Hs. apply in_app_or in Hs as [H|[<-|[]]]; [auto|constructor].
+      * intros s Hs. apply in_app_or in Hs as [H|[<-|[]]]; [auto|reflexivity].
+      * intros b Hb. rewrite app_length. simpl. apply in_bucket_set in Hb as [->|Hb].
+        -- eexists. split; [reflexivity|]. destruct (objs m); [congruence|simpl; lia].
+        -- destruct (Hbo b Hb) as (i & A & B). exists i. split; [exact A|lia].
+      * apply bucket_set_nodup; [exact Hbd|]. cbn [b_obj]. intros Hin.
+        apply in_map_iff in Hin as (b & Eb & Hb). destruct (Hbo b Hb) as (i & A & B).
+        rewrite A in Eb. injection Eb as ->. lia.
+    + constructor; cbn [dead objs bks]; auto.
+      * intros E. apply app_eq_nil in E as [E _]. congruence.
+      * intros s Hs. apply in_app_or in Hs as [H|[<-|[]]]; [auto|constructor].
+      * intros s Hs. apply in_app_or in Hs as [H|[<-|[]]]; [auto|reflexivity].
+      * intros b Hb. destruct (Hbo b Hb) as (i & A & B). exists i. split; [exact A|].
+        rewrite app_length. lia.
+  - (* OWire *) destruct (String.eqb (lower k) "end"); [exact W|]. apply (wf_measure all_fixed); exact W.
+  - (* OMeasure *) apply (wf_measure all_fixed); exact W.
+  - (* ODirect *) apply wf_on_obj; [exact W|]. intros s Hs. cbn [fst].
+    pose proof (nth_error_In _ _ Hs) as Hin.
+    eapply wf_set; [exact W|exact Hs|cbn [stats_update locked]; auto|apply stats_update_sorted; auto].
+  - (* OCollect *) apply wf_on_obj; [exact W|]. intros s Hs. cbn [fst].
+    pose proof (nth_error_In _ _ Hs) as Hin.
+    eapply wf_set; [exact W|exact Hs|apply (Hlo s Hin)|apply stats_collect_sorted; auto].
+  - (* OString *) apply wf_on_obj; [exact W|]. intros s Hs. cbn [fst].
+    pose proof (nth_error_In _ _ Hs) as Hin.
+    eapply wf_set; [exact W|exact Hs|apply (Hlo s Hin)|apply stats_collect_sorted; auto].
+  - (* OHeader *) apply wf_on_obj; [exact W|]. intros s Hs. exact W.
+  - (* OValues *) apply wf_on_obj; [exact W|]. intros s Hs. cbn [fst].
+    pose proof (nth_error_In _ _ Hs) as Hin.
+    eapply wf_set; [exact W|exact Hs|apply (Hlo s Hin)|apply stats_collect_sorted; auto].
+  - (* OGet *)
+    destruct (bucket_find (bks m) idx) as [b|]; [|exact W].
+    destruct (b_obj b) as [i|]; [|exact W].
+    apply wf_on_obj; [exact W|]. intros s Hs. cbn [fst].
+    pose proof (nth_error_In _ _ Hs) as Hin.
+    eapply wf_set; [exact W|exact Hs|apply (Hlo s Hin)|apply stats_collect_sorted; auto].
+  - (* OAverage *)
+    destruct srcs as [|i0 srcs]; [cbn [fst]; apply wf_grow; [exact W|reflexivity|constructor]|].
+    destruct (forallb (fun i => Nat.ltb i (List.length (objs m))) (i0 :: srcs)) eqn:Er; cbn [negb]; [|exact W].
+    apply wf_on_obj; [exact W|]. intros s0 Hs0.
+    destruct (avg_keys_fixed (i0 :: srcs) (map fst (vals s0)) (objs m) [] Hlo) as (kvs & E).
+    { intros i Hi. rewrite forallb_forall in Er. apply Nat.ltb_lt. apply Er. exact Hi. }
+    rewrite E. cbn [fst]. apply wf_grow; [exact W|reflexivity|]. cbn [vals].
+    apply (ksorted_keys_ext (vals s0)); [|apply Hso; eapply nth_error_In; eauto].
+    apply avg_keys_fst in E. rewrite E. reflexivity.
+  - (* OWireErr *) exact W.
+Qed.
+
+(* HEADLINE: every state the repaired machine can reach, by ANY history, is
+   well-formed ... *)
+Theorem wf_reachable : forall st ops, wf (fst (mrun all_fixed (init_state st) ops)).
+Proof.
+  intros st ops. generalize (wf_init st). generalize (init_state st).
+  induction ops as [|o ops IH]; intros m W; simpl; [exact W|].
+  pose proof (wf_step o m W) as W1. destruct (mstep all_fixed m o) as [m1 x]. cbn [fst] in W1.
+  specialize (IH m1 W1). destruct (mrun all_fixed m1 ops) as [m2 xs]. exact IH.
+Qed.
+
+(* ... hence after ANY history a write reports, for every measure of the result
+   set, exactly the statistics of the values stored for it *)
+Theorem values_report_exact_reachable : forall st ops i s,
+  let m := fst (mrun all_fixed (init_state st) ops) in
+  nth_error (objs m) i = Some s ->
+  exists m' rows, mstep all_fixed m (OValues i) = (m', OutValues (map snd (statics s)) rows) /\
+    map fst rows = map fst (vals s) /\
+    (forall k sn, In (k, sn) rows -> snap_eq sn (exact (store_at m i k))) /\
+    (forall k, store_at m i k <> [] -> exists sn, In (k, sn) rows) /\
+    (forall k, store_at m' i k = store_at m i k).
+Proof.
+  intros st ops i s m Hi. apply values_report_exact; auto. apply wf_reachable.
+Qed.
+
+(* ---------- averaging, end to end, for arbitrary histories ---------------------------------- *)
+
+Lemma st_equiv_store_at m m' i k : st_equiv m m' -> store_at m i k = store_at m' i k.
+Proof.
+  intros (A & _ & _). unfold store_at. pose proof (Forall2_nth _ _ _ i A) as Hn.
+  destruct (nth_error (objs m) i) as [s|], (nth_error (objs m') i) as [s'|]; try contradiction; [|reflexivity].
+  destruct Hn as (_ & _ & C). unfold store_of, store_of_vals.
+  pose proof (vals_find_equiv _ _ k C) as Hf.
+  destruct (vals_find (vals s) k), (vals_find (vals s') k); try contradiction; auto.
+Qed.
+
+Lemma readouts_keep ros : forall m, wf m -> Forall (fun o => is_readout o = true) ros ->
+  wf (fst (mrun all_fixed m ros)) /\ st_equiv m (fst (mrun all_fixed m ros)).
+Proof.
+  induction ros as [|o ros IH]; intros m W H; [split; [exact W|apply st_equiv_refl]|].
+  inversion H as [|? ? Ho Hros]; subst. cbn [mrun].
+  pose proof (wf_step o m W) as W1.
+  pose proof (readout_self_equiv o m (wf_safe m W) Ho) as E1.
+  destruct (mstep all_fixed m o) as [m1 x]. cbn [fst] in *.
+  destruct (IH m1 W1 Hros) as [W2 E2]. destruct (mrun all_fixed m1 ros) as [m2 xs]. cbn [fst] in *.
+  split; [exact W2|]. eapply st_equiv_trans; eauto.
+Qed.
+
+Lemma found_values_concat m srcs k :
+  List.concat (map vstore (found_values (objs m) srcs k)) =
+  List.concat (map (fun i => store_at m i k) srcs).
+Proof.
+  induction srcs as [|i srcs IH]; [reflexivity|]. cbn [found_values map List.concat].
+  unfold store_at at 1. destruct (nth_error (objs m) i) as [s|]; [|exact IH].
+  unfold store_of, store_of_vals. destruct (vals_find (vals s) k) as [v|]; [|exact IH].
+  cbn [map List.concat]. rewrite IH. reflexivity.
+Qed.
+
+(* result set i carries measure k *)
+Definition has_measure (m : mstate) (i : nat) (k : string) : Prop :=
+  exists s, nth_error (objs m) i = Some s /\ vals_find (vals s) k <> None.
+
+(* HEADLINE (averaging clause of the property, end to end, repaired machine):
+   let ANY history [ops] -- bucket set-up, measures arriving over any interleaving
+   of connections, direct updates, earlier averages, any number of read-outs of
+   anything -- lead to state m; let i0 :: srcs be result sets over the same
+   measures (each carries every measure of i0); average them; perform any
+   further read-outs [ros] (of the sources, of the average, of anything); then
+   write the averaged set.  Every written measure carries exactly the
+   statistics of the UNION (concatenation, in source order; by
+   c19_statistics_of_multiset any arrangement) of the values the sources held
+   for it, and every measure of i0 is written. *)
+Theorem average_end_to_end : forall st ops i0 srcs ros,
+  let m := fst (mrun all_fixed (init_state st) ops) in
+  let a := List.length (objs m) in
+  (forall i, In i (i0 :: srcs) -> (i < a)%nat) ->
+  (forall k i, has_measure m i0 k -> In i srcs -> has_measure m i k) ->
+  Forall (fun o => is_readout o = true) ros ->
+  let m2 := fst (mrun all_fixed m (OAverage (i0 :: srcs) :: ros)) in
+  exists m3 stt rows, mstep all_fixed m2 (OValues a) = (m3, OutValues stt rows) /\
+    (forall k sn, In (k, sn) rows ->
+       snap_eq sn (exact (List.concat (map (fun i => store_at m i k) (i0 :: srcs))))) /\
+    (forall k, has_measure m i0 k -> exists sn, In (k, sn) rows).
+Proof.
+  intros st ops i0 srcs ros m a Hrange Hsame Hros m2.
+  pose proof (wf_reachable st ops) as W. fold m in W.
+  pose proof W as [Hal Hne Hso Hlo Hbo Hbd].
+  destruct (nth_error (objs m) i0) as [s0|] eqn:E0;
+    [|apply nth_error_None in E0; specialize (Hrange i0 (or_introl eq_refl)); unfold a in Hrange; lia].
+  assert (Hkeys : forall k, In k (map fst (vals s0)) -> has_measure m i0 k).
+  { intros k Hk. exists s0. split; [exact E0|]. apply in_map_iff in Hk as ([k' v] & <- & Hv).
+    cbn [fst]. rewrite (ksorted_find _ _ _ (Hso s0 (nth_error_In _ _ E0)) Hv). discriminate. }
+  assert (H1 : forall i, In i srcs -> (i < List.length (objs m))%nat).
+  { intros i Hi. apply Hrange. now right. }
+  assert (H2 : forall k i, In k (map fst (vals s0)) -> In i (i0 :: srcs) ->
+                 exists s, nth_error (objs m) i = Some s /\ vals_find (vals s) k <> None).
+  { intros k i Hk [<-|Hi]; [apply Hkeys; exact Hk|apply Hsame; [apply Hkeys; exact Hk|exact Hi]]. }
+  pose proof (average_stats_union all_fixed m i0 srcs s0 Hal Hlo E0 H1 H2) as Estep.
+  set (snew := mkStats (statics s0)
+                 (map (fun k => (k, average_value (found_values (objs m) (i0 :: srcs) k))) (map fst (vals s0)))
+                 false) in Estep.
+  set (m1 := with_objs m (objs m ++ [snew])) in Estep.
+  unfold m2. cbn [mrun]. rewrite Estep.
+  assert (W1 : wf m1).
+  { pose proof (wf_step (OAverage (i0 :: srcs)) m W) as H. rewrite Estep in H. exact H. }
+  destruct (readouts_keep ros m1 W1 Hros) as [W2 E12].
+  destruct (mrun all_fixed m1 ros) as [m2' outs] eqn:Er. cbn [fst] in *.
+  assert (Ha1 : nth_error (objs m1) a = Some snew).
+  { unfold m1, a. cbn [with_objs objs]. rewrite nth_error_app2 by lia. rewrite Nat.sub_diag. reflexivity. }
+  pose proof E12 as (A12 & _ & _). pose proof (Forall2_nth _ _ _ a A12) as Hn. rewrite Ha1 in Hn.
+  destruct (nth_error (objs m2') a) as [s2|] eqn:Ea2; [|contradiction].
+  destruct (values_report_exact all_fixed m2' a s2 eq_refl eq_refl W2 Ea2) as (m3 & rows & Ev & Hfst & Hex & Hall & _).
+  exists m3, (map snd (statics s2)), rows. split; [exact Ev|].
+  assert (Hstore : forall k, In k (map fst (vals s0)) ->
+            store_at m2' a k = List.concat (map (fun i => store_at m i k) (i0 :: srcs))).
+  { intros k Hk. rewrite <- (st_equiv_store_at m1 m2' a k E12). unfold store_at. rewrite Ha1.
+    unfold store_of, store_of_vals, snew. cbn [vals].
+    assert (Hf : vals_find (map (fun k0 => (k0, average_value (found_values (objs m) (i0 :: srcs) k0)))
+                               (map fst (vals s0))) k
+                 = Some (average_value (found_values (objs m) (i0 :: srcs) k))).
+    { apply ksorted_find.
+      - apply (ksorted_keys_ext (vals s0)); [|apply Hso; eapply nth_error_In; eauto].
+        rewrite !map_map. reflexivity.
+      - apply in_map_iff. exists k. auto. }
+    rewrite Hf. unfold average_value. cbn [with_store vstore]. apply found_values_concat. }
+  assert (Hrowkeys : map fst rows = map fst (vals s0)).
+  { rewrite Hfst. destruct Hn as (_ & _ & C). unfold snew in C. cbn [vals] in C.
+    clear -C. revert C. generalize (vals s2). generalize (map fst (vals s0)).
+    induction l as [|k l IH]; intros l2 C; inversion C as [|? ? ? ? [Hk _] Hr]; subst; [reflexivity|].
+    simpl in *. rewrite <- Hk. f_equal. apply IH. exact Hr. }
+  split.
+  - intros k sn Hin. rewrite <- Hstore; [apply Hex; exact Hin|].
+    rewrite <- Hrowkeys. apply in_map_iff. exists (k, sn). auto.
+  - intros k (s & Es & Hf). rewrite E0 in Es. injection Es as <-.
+    assert (Hk : In k (map fst rows)).
+    { rewrite Hrowkeys. destruct (vals_find (vals s0) k) as [v|] eqn:Ev0; [|congruence].
+      apply in_map_iff. exists (k, v). split; [reflexivity|]. apply vals_find_in. exact Ev0. }
+    apply in_map_iff in Hk as ([k' sn] & <- & Hin). exists sn. exact Hin.
+Qed.
+
+Example average_end_to_end_satisfiable :
+  let ops := [OSetBucket 0 ["0:2"]; OMeasure "a" 1%Q 0; ONew; ODirect 2 "a" 2%Q; OValues 2;
+              ONew; ODirect 3 "a" 6%Q; ODirect 3 "b" 7%Q] in
+  let m := fst (mrun all_fixed (init_state []) ops) in
+  (forall i, In i [2%nat; 3%nat; 1%nat] -> (i < List.length (objs m))%nat) /\
+  (forall k i, has_measure m 2 k -> In i [3%nat; 1%nat] -> has_measure m i k).
+Proof.
+  cbn zeta. split.
+  - intros i [<-|[<-|[<-|[]]]]; vm_compute; lia.
+  - intros k i (s & Es & Hf) Hi. vm_compute in Es. injection Es as <-.
+    cbn [vals vals_find] in Hf. destruct (String.eqb k "a") eqn:E; [|congruence].
+    apply String.eqb_eq in E. subst k.
+    destruct Hi as [<-|[<-|[]]]; eexists; (split; [vm_compute; reflexivity|vm_compute; discriminate]).
+Qed.
